@@ -1169,7 +1169,7 @@ theorem applyFn_isNonnull (args : List Val) : Spec.Eval.applyFn sIsNonnull args 
      | _ => .error) := rfl
 theorem applyFn_length (args : List Val) : Spec.Eval.applyFn sLength args =
     (match args with
-     | [.list xs] => .val (.int xs.length)
+     | [.list xs] => Spec.Eval.intRes xs.length
      | _ => .error) := rfl
 theorem applyFn_floor (args : List Val) : Spec.Eval.applyFn sFloor args =
     (match args with
@@ -1211,7 +1211,8 @@ theorem apply1_corr (name : Bytes) (f : Fn1) (hf : fn1Of name = some f) (v : Val
       obtain ⟨xs, rfl, hxs⟩ := toJsV_arr hv
       rw [applyFn_length]
       have hl := toJsList_length xs js hxs
-      exact ⟨.int xs.length, rfl, by rw [← hl]; exact toJsV_int he⟩
+      rw [hl] at he
+      exact ⟨.int xs.length, intRes_of_exact he, by rw [hl]; exact toJsV_int he⟩
     · have hint : ∀ (g : Fn1), (g = .floor ∨ g = .ceil ∨ g = .round) → apply1 g ja = .val jv →
           ∃ i, v = .int i ∧ exact i = true ∧ jv = .num i := by
         intro g hg hh
